@@ -68,7 +68,7 @@ CHECKS = {
             "Machine-checked: get_path resolves every well-formed chain (any sector order) to exactly its sectors (C07_getPath_wf), whatever it returns is a chain of the table (C07_getPath_sound), and on EVERY table "
             "(cycles, self-links, cross-links, out-of-range links) it ends with a path of at most `size` sectors or one of two reported errors (C07_getPath_total, C07_getPath_cycle_reported); add_to_sector_links installs exactly "
             "the chain it is given (C07_addLinks_chain); the AKAI SAT walk terminates on every word table — Lean's termination checker accepted the lexicographic measure (2*#clean - [current clean], size - current), proof in Smpl.Alloc.akai_measure — and the "
-            "Roland walk terminates by structural recursion on its loop guard. Decoder soundness: C07_roland_sound / C07_akai_sound — every entry of the decoded link table is an end mark or exactly the step the FAT / SAT word of that sector prescribes (a link word names the next sector, an AKAI directory-flag word continues with the following sector), on every table the decoder accepts; hence C07_roland_path_follows_fat / C07_akai_path_follows_sat: any chain get_path resolves over the decoded table follows the raw table. Decoder completeness for Roland: C07_roland_complete (Props/C07RP) — a chain that is well formed in the raw FAT (each word names the next cluster, the last is an end mark) and starts at an allocatable cluster is installed whole whenever the decoder accepts the table, so get_path from its head resolves exactly it — whatever else the table holds, also other words pointing at its head or into it (invariant: the chain is installed as soon as its head has been visited, and once the outer loop is past the head); C07_roland_wf is the earlier form with the extra premise that no word points at the head (invariants over the walk and the outer loop: rolandWalk_chain, addLinks_installs_path, LoopInv). Decoder completeness for AKAI: C07_akai_wf — for a table of at most 0xC000 entries (the real one has 11386), a file chain that is well formed in the raw SAT (each word names the next sector, the last word is 0xC000) is installed whole whenever the decoder accepts the table, with NO condition on the rest of the table (other chains may join it, a directory run may lead into it, its head need not be its lowest sector): invariant WInv over the well-founded walk (akaiWalk_complete, by functional induction), addLinks_c (consistent writes), AInv over the outer loop. Raw chains visit no sector twice (arawChain_nodup / rawChain_nodup), so no length premise is needed. AKAI directory areas: C07_akai_dir_run — a run of k >= 1 consecutive reserved-flag (0x4000 / 0x8000, mixed) sectors that no link word points into, that does not continue an earlier run and that is followed by a sector which is not reserved-flagged is installed as the chain d..d+k-1 ending with the last sector of the run, whatever word follows it and whatever else the table holds (akaiWalk_run: the walk through the run; akaiWalk_avoids: no other walk touches it; RInv over the outer loop). "
+            "Roland walk terminates by structural recursion on its loop guard. Decoder soundness: C07_roland_sound / C07_akai_sound — every entry of the decoded link table is an end mark or exactly the step the FAT / SAT word of that sector prescribes (a link word names the next sector, an AKAI directory-flag word continues with the following sector), on every table the decoder accepts; hence C07_roland_path_follows_fat / C07_akai_path_follows_sat: any chain get_path resolves over the decoded table follows the raw table. Decoder completeness for Roland: C07_roland_complete (Props/C07RP) — a chain that is well formed in the raw FAT (each word names the next cluster, the last is an end mark) and starts at an allocatable cluster is installed whole whenever the decoder accepts the table, so get_path from its head resolves exactly it — whatever else the table holds, also other words pointing at its head or into it (invariant: the chain is installed as soon as its head has been visited, and once the outer loop is past the head); C07_roland_wf is the earlier form with the extra premise that no word points at the head (invariants over the walk and the outer loop: rolandWalk_chain, addLinks_installs_path, LoopInv). Decoder completeness for AKAI: C07_akai_wf — for a table of at most 0xC000 entries (the real one has 11386), a file chain that is well formed in the raw SAT (each word names the next sector, the last word is 0xC000) is installed whole whenever the decoder accepts the table, with NO condition on the rest of the table (other chains may join it, a directory run may lead into it, its head need not be its lowest sector): invariant WInv over the well-founded walk (akaiWalk_complete, by functional induction), addLinks_c (consistent writes), AInv over the outer loop. Raw chains visit no sector twice (arawChain_nodup / rawChain_nodup), so no length premise is needed. AKAI directory areas: C07_akai_dir_run — a run of k >= 1 consecutive reserved-flag (0x4000 / 0x8000, mixed) sectors that no link word points into, that does not continue an earlier run and that is followed by a sector which is not reserved-flagged — or ends with the table's last sector (the case the pinned decoder cut to one sector: D18, fix abf9ef6) — is installed as the chain d..d+k-1 ending with the last sector of the run, whatever word follows it and whatever else the table holds (akaiWalk_run: the walk through the run; akaiWalk_avoids: no other walk touches it; RInv over the outer loop). "
             "Tie: every raw AKAI table of 5 sectors over {free, EOF, both reserved flags, each link, out of range} and every small Roland table, decode + get_path from every start, model vs real code; property oracle computed from the raw words independently. "
             "Three genuine defects were found by this check and repaired (fix: commits 496f278, 38611f1, 60236d3)."
         ),
